@@ -106,7 +106,7 @@ Section Sim.
     | OHandle a, OHandle b => a = b
     | OUnit, OUnit | OBlocked, OBlocked | ONoHandle, ONoHandle | OPanicSettled, OPanicSettled | ONil, ONil
     | OFinNil, OFinNil | OFinErr, OFinErr | OFinPanicV, OFinPanicV | OFinPanicSettled, OFinPanicSettled
-    | OFinBlocked, OFinBlocked => True
+    | OFinBlocked, OFinBlocked | OFinGoexit, OFinGoexit => True
     | _, _ => False
     end.
 
@@ -269,6 +269,7 @@ Section Sim.
       + destruct wr; (split; [|apply F2_snoc1; [exact H2|exact I]]).
         * apply sim_abort_w. apply sim_commit_w. exact H1.
         * apply sim_abort_w. exact H1.
+      + split; [apply sim_abort_w; exact H1|apply F2_snoc1; [exact H2|exact I]].
       + split; [apply sim_abort_w; exact H1|apply F2_snoc1; [exact H2|exact I]].
       + split; [apply sim_abort_w; exact H1|apply F2_snoc1; [exact H2|exact I]].
   Qed.
